@@ -86,6 +86,8 @@ type Snapshot struct {
 
 	Bal    map[string]int64 // addr hex -> stake balance (all accounts, raw bank scan)
 	Supply int64
+	BalP    map[string]int64 // addr hex -> balance of the second coin ("point"), where any exists
+	SupplyP int64
 }
 
 func bkey(service, providerHex string) string { return service + "|" + providerHex }
@@ -129,6 +131,7 @@ func (w *World) SnapshotAt(ctx sdk.Context) *Snapshot {
 		OwnerEarn:  map[string]int64{},
 		Raw:        map[string][]byte{},
 		Bal:        map[string]int64{},
+		BalP:       map[string]int64{},
 	}
 	cdc := w.app.AppCodec()
 	store := ctx.KVStore(w.app.GetKey(types.StoreKey))
@@ -305,6 +308,10 @@ func (w *World) SnapshotAt(ctx sdk.Context) *Snapshot {
 		k := bit.Key()
 		var c sdk.Coin
 		cdc.MustUnmarshalBinaryBare(bit.Value(), &c)
+		if c.Denom == "point" && bytes.HasSuffix(k, []byte("point")) {
+			s.BalP[hx(k[8:len(k)-5])] += mustI64(c.Amount)
+			continue
+		}
 		if c.Denom != "stake" || !bytes.HasSuffix(k, []byte("stake")) {
 			continue
 		}
@@ -313,6 +320,7 @@ func (w *World) SnapshotAt(ctx sdk.Context) *Snapshot {
 	}
 	bit.Close()
 	s.Supply = mustI64(w.app.BankKeeper.GetSupply(ctx).GetTotal().AmountOf("stake"))
+	s.SupplyP = mustI64(w.app.BankKeeper.GetSupply(ctx).GetTotal().AmountOf("point"))
 	return s
 }
 
@@ -337,7 +345,17 @@ func (s *Snapshot) Digest() string {
 			fmt.Fprintf(h, "%s:%d;", a, s.Bal[a])
 		}
 	}
-	fmt.Fprintf(h, "supply:%d;h:%d;t:%d", s.Supply, s.Height, s.TimeNs)
+	ps := make([]string, 0, len(s.BalP))
+	for a := range s.BalP {
+		ps = append(ps, a)
+	}
+	sort.Strings(ps)
+	for _, a := range ps {
+		if s.BalP[a] != 0 {
+			fmt.Fprintf(h, "%s:%dpoint;", a, s.BalP[a])
+		}
+	}
+	fmt.Fprintf(h, "supply:%d;supplyP:%d;h:%d;t:%d", s.Supply, s.SupplyP, s.Height, s.TimeNs)
 	return hx(h.Sum(nil))
 }
 
